@@ -449,6 +449,19 @@ def op_toggle_formula(g, dv, protected):
     return None
   t, c = g.rng.choice(cands)
   if c.isFormula and c.formula:
+    # D0: do not freeze error cells into a data column (a stored error loses its class when the
+    # document is reloaded: finding F-r).
+    try:
+      cells = dv.cells(t.tableId, c.colId).values()
+    except KeyError:
+      return None
+    if any(isinstance(v, list) and v and v[0] == "E" for v in cells):
+      return None
+    # D0: a frozen column keeps its formula text as a trigger formula. A trigger formula doing a
+    # sorted lookup registers no relation on the lookup helpers, which lets the unsorted map be
+    # cleaned up while the sorted helper survives with a dangling reference (finding F-t).
+    if "lookup" in c.formula or ".all" in c.formula:
+      return None
     return [["ModifyColumn", t.tableId, c.colId, {"isFormula": False}]]
   if not c.isFormula and c.pure not in ("Ref", "RefList"):
     f = gen_formula(g, dv, t, limit_ref=c.ref, kinds=["arith", "str"])
@@ -724,16 +737,114 @@ def gen_user_actions(g, dv, weights, protected=None, tries=12):
   return None, None
 
 
+RECORD_OPS = {"add_records", "update_records", "remove_records"}
+SUMMARY_OPS = {"add_summary", "update_summary", "detach_summary", "add_summary_formula"}
+
+
+def tables_of(dv, actions):
+  """Table ids (of user tables, as named in dv) that the given user actions touch."""
+  out = set()
+  for a in actions:
+    name = a[0]
+    if name == "CreateViewSection":
+      t = dv.table_by_ref.get(a[1])
+      if t is not None:
+        out.add(t.tableId)
+      continue
+    if name in ("UpdateSummaryViewSection", "DetachSummaryViewSection"):
+      for r, rec in dv.records("_grist_Views_section"):
+        if r == a[1]:
+          st = dv.table_by_ref.get(rec["tableRef"])
+          if st is not None:
+            out.add(st.tableId)
+            src = dv.table_by_ref.get(st.summarySource)
+            if src is not None:
+              out.add(src.tableId)
+      continue
+    if len(a) > 1 and isinstance(a[1], str):
+      if a[1] in dv.tables:
+        out.add(a[1])
+        t = dv.tables[a[1]]
+        if t.is_summary:
+          src = dv.table_by_ref.get(t.summarySource)
+          if src is not None:
+            out.add(src.tableId)
+      elif a[1] == "_grist_Tables_column" and len(a) > 2:
+        rows = a[2] if isinstance(a[2], list) else [a[2]]
+        for r in rows:
+          c = dv.col_by_ref.get(r)
+          if c is not None:
+            out.add(c.table.tableId)
+      elif a[1] == "_grist_Tables" and len(a) > 2:
+        rows = a[2] if isinstance(a[2], list) else [a[2]]
+        for r in rows:
+          t = dv.table_by_ref.get(r)
+          if t is not None:
+            out.add(t.tableId)
+    # formulas may read other tables: those become "read" tables, handled via `protected`
+  return out
+
+
+def protect_from_actions(dv, actions, protected):
+  """Extend `protected` with the key/sort/group-by columns that the generated actions start using,
+  so that later groups of the same bundle keep D0 (they are generated against the same Sigma)."""
+  for a in actions:
+    if a[0] in ("AddColumn", "ModifyColumn") and isinstance(a[3], dict) and a[3].get("formula"):
+      tree = fx.parse(a[3]["formula"])
+      if tree is None:
+        continue
+      for lk in fx.find_lookups(tree):
+        for k in lk.keys:
+          protected.add((lk.table, k))
+        for nm, _d in fx._sort_names(lk.order_by) + fx._sort_names(lk.sort_by):
+          protected.add((lk.table, nm))
+      for p in fx.find_prevnext(tree):
+        gb = p.group_by
+        if isinstance(gb, str):
+          gb = (gb,)
+        for x in (gb or ()):
+          if isinstance(x, str):
+            protected.add((a[1], x))
+        for nm, _d in fx._sort_names(p.order_by):
+          protected.add((a[1], nm))
+    elif a[0] in ("CreateViewSection", "UpdateSummaryViewSection"):
+      refs = a[4] if a[0] == "CreateViewSection" else a[2]
+      for r in (refs or ()):
+        c = dv.col_by_ref.get(r)
+        if c is not None:
+          protected.add((c.table.tableId, c.colId))
+
+
 def gen_bundle(g, dv, weights, width=None):
-  """A bundle of 1..width user-action groups. All groups are generated against the same Sigma, so
-  later groups may be invalidated by earlier ones (the engine then rejects the bundle -- which is
-  itself a useful case -- but mostly widths are small)."""
+  """A bundle of 1..width user-action groups, all generated against the same Sigma. To stay inside
+  D0 within the bundle: columns that an earlier group starts using as key/sort/group-by become
+  protected for later groups; a table touched by a schema op is not used by later groups (its
+  names may be stale); summary ops only go on tables no other group of the bundle touches (mixing
+  record edits and summary regrouping in one bundle is known finding F-s, explored under C01)."""
   protected = fx.used_as_index(dv)
   width = width or g.rng.choice([1, 1, 1, 2, 3])
   names, actions = [], []
+  schema_touched, all_touched = set(), set()
   for _ in range(width):
-    n, a = gen_user_actions(g, dv, weights, protected)
-    if a:
+    for _try in range(4):
+      n, a = gen_user_actions(g, dv, weights, protected)
+      if not a:
+        break
+      ts = tables_of(dv, a)
+      if ts & schema_touched:
+        continue
+      if n in SUMMARY_OPS and ts & all_touched:
+        continue
+      if n not in RECORD_OPS and n not in SUMMARY_OPS and any(
+          nm in SUMMARY_OPS for nm in names) and ts & all_touched:
+        continue
       names.append(n)
       actions.extend(a)
+      all_touched |= ts
+      if n not in RECORD_OPS:
+        schema_touched |= ts
+      if n in SUMMARY_OPS:
+        schema_touched |= ts
+      protect_from_actions(dv, a, protected)
+      break
   return names, actions
